@@ -17,7 +17,7 @@ class C17(Check):
             "(a different algorithm via minimize, an aborted ask-and-tell run, a complete ask-and-tell run of the same class with the default termination), the same "
             "configuration and seed must reproduce the reference generation by generation (fingerprints of X, F, G and of the optimum), also when the run itself uses the "
             "default termination; (3) minimize must end in the reference's last population; (4) ask-and-tell with the offspring evaluated outside the algorithm one by one "
-            "in shuffled order, and in batches, must reproduce the reference; (5) __dict__ of the shared default operator instances is compared before/after; "
+            "other problems driven through ask-and-tell / minimize(copy_algorithm=False) on algorithm objects that share the default operator instances; in shuffled order, and in batches, must reproduce the reference; (5) __dict__ of the shared default operator instances is compared before/after; "
             "in addition one run per case is compared with the Coq model step by step (as in C06-C08); non-trivial = at least 3 generations compared; distinct by hash")
     ASSUMPTIONS = ["the model is a function of the recorded draws and oracle answers (no hidden state by construction); that the Python objects have no further state "
                    "(module globals, shared default-argument instances, numpy's global generator) is an observation of these paired runs: partial",
@@ -27,7 +27,7 @@ class C17(Check):
         for _ in range(n):
             cfg = hist.gen_hist_case(self.rng, algs=ALGS, n_gen=self.rng.choice([4, 5]))
             cfg["default_termination"] = self.rng.random() < 0.35
-            cfg["workloads"] = self.rng.sample(["other-minimize", "aborted", "default-term-asktell", "none"], 2)
+            cfg["workloads"] = self.rng.sample(["other-minimize", "aborted", "default-term-asktell", "none", "other-asktell", "other-asktell", "other-nocopy"], 2)
             cfg["wl_seed"] = self.rng.randrange(10 ** 6)
             yield cfg
 
@@ -43,6 +43,20 @@ class C17(Check):
             if w == "other-minimize":
                 c2 = hist.gen_hist_case(wrng, algs=("NSDE", "DE"), n_gen=3)
                 minimize(hist.make_problem(c2), hist.make_algorithm(c2), ("n_gen", 3), seed=c2["seed"], verbose=False)
+            elif w in ("other-asktell", "other-nocopy"):
+                # another problem (same algorithm family, same shapes half of the time, unconstrained half of the time) on algorithm objects that are NOT deep-copied
+                c2 = hist.gen_hist_case(wrng, algs=(cfg["alg"], cfg["alg"], cfg["alg"], "DE", "NSDE", "GDE3"), n_gen=3)
+                if wrng.random() < 0.5:
+                    c2["n_ieq"] = 0; c2["shift"] = 0.0; c2.pop("fscale", None); c2.pop("gscale", None)
+                if wrng.random() < 0.5 and cfg["alg"] != "NSDER" and c2["alg"] != "NSDER":
+                    c2["n_var"] = cfg["n_var"]; c2["pop_size"] = cfg["pop_size"]; c2["sel"] = cfg["sel"]; c2["y"] = cfg["y"]
+                    c2["xl"] = enc(decarr(cfg["xl"]) - 1.0); c2["xu"] = enc(decarr(cfg["xu"]) + 2.0)
+                    c2["A"] = [[wrng.gauss(0, 1) for _ in range(c2["n_var"])] for _ in range(c2["n_obj"])]
+                    c2["B"] = [[wrng.gauss(0, 1) for _ in range(c2["n_var"])] for _ in range(max(c2["n_ieq"], 1))]
+                if w == "other-asktell":
+                    runs.fresh_run(c2, 3)
+                else:
+                    minimize(hist.make_problem(c2), hist.make_algorithm(c2), ("n_gen", 3), seed=c2["seed"], verbose=False, copy_algorithm=False)
             elif w == "aborted":
                 c2 = dict(cfg); c2["seed"] = cfg["seed"] + 1
                 runs.fresh_run(c2, 2)
